@@ -176,10 +176,14 @@ func (c *tracingHTTP2Conn) handleFrame(frame http2.Frame, isRequest bool) {
 		if stream == nil {
 			return
 		}
-		if isRequest {
+		switch {
+		case isRequest:
 			stream.requestTracer.trace(frame.Data())
-		} else {
+		case stream.gotResponse:
 			stream.responseTracer.trace(frame.Data())
+		default:
+			// Response data without response headers is malformed: there is
+			// no response (and no initialised tracer) to attribute it to.
 		}
 		if frame.StreamEnded() {
 			c.closeStreamLocked(frame.StreamID, stream, isRequest, nil)
